@@ -48,6 +48,57 @@ func structuralPrefix(s, p *Term) (res, ok bool) {
 	return true, true
 }
 
+// structuralContains decides strings.Contains(s, needle) for a constant needle when some byte c of the
+// needle cannot occur in any symbolic part of s: every occurrence of the needle then puts c on a byte
+// of a constant part, and each such alignment is checked against the constant text. ok=false: an
+// alignment reaches into a symbolic part without a mismatch in the constant overlap (unknown).
+func structuralContains(m *Machine, s *Term, needle string) (res, ok bool) {
+	parts := concatParts(s)
+	ci := -1
+	for i := 0; i < len(needle) && ci < 0; i++ {
+		free := true
+		for _, p := range parts {
+			if !p.IsConst() && !m.sepFree(p, needle[i:i+1]) {
+				free = false
+				break
+			}
+		}
+		if free {
+			ci = i
+		}
+	}
+	if ci < 0 {
+		return false, false
+	}
+	c := needle[ci]
+	for _, p := range parts {
+		if !p.IsConst() {
+			continue
+		}
+		for j := 0; j < len(p.S); j++ {
+			if p.S[j] != c {
+				continue
+			}
+			start, end := j-ci, j-ci+len(needle)
+			lo, hi := start, end
+			if lo < 0 {
+				lo = 0
+			}
+			if hi > len(p.S) {
+				hi = len(p.S)
+			}
+			if p.S[lo:hi] != needle[lo-start:hi-start] {
+				continue // mismatch inside the constant text
+			}
+			if start >= 0 && end <= len(p.S) {
+				return true, true
+			}
+			return false, false
+		}
+	}
+	return false, true
+}
+
 func init() {
 	prevHasPrefix := symIntrinsics["strings.HasPrefix"]
 	regSym("strings.HasPrefix", func(fr *frame, a []value) value {
@@ -67,6 +118,11 @@ func init() {
 				if p.IsConst() && strings.Contains(p.S, sub.S) {
 					return true
 				}
+			}
+		}
+		if sub.IsConst() && len(sub.S) > 1 {
+			if r, ok := structuralContains(fr.i.m, s, sub.S); ok {
+				return r
 			}
 		}
 		return prevContains(fr, a)
@@ -93,5 +149,31 @@ func init() {
 			return tuple{strVal(s), "", false}
 		}
 		return prevCut(fr, a)
+	})
+	prevTrimRight := symIntrinsics["strings.TrimRight"]
+	regSym("strings.TrimRight", func(fr *frame, a []value) value {
+		s := strArg(a[0])
+		cut, ok := a[1].(string)
+		if ok && len(cut) == 1 {
+			// walk the concatenation from the right: constants are trimmed natively; a symbolic part that is
+			// known non-empty and free of the cut character stops the trimming.
+			m := fr.i.m
+			parts := concatParts(s)
+			for k := len(parts) - 1; k >= 0; k-- {
+				p := parts[k]
+				if p.IsConst() {
+					if t := strings.TrimRight(p.S, cut); t != "" {
+						return strVal(mkConcat(append(append([]*Term(nil), parts[:k]...), mkStr(t))...))
+					}
+					continue
+				}
+				if m.sepFree(p, cut) && m.strEmptiness(p) == 1 {
+					return strVal(mkConcat(parts[:k+1]...))
+				}
+				return prevTrimRight(fr, a)
+			}
+			return ""
+		}
+		return prevTrimRight(fr, a)
 	})
 }
